@@ -224,7 +224,15 @@ class SyncManager(Runnable):
         need_to_sleep = True
         something_got_done = False  # shouldn't this be default False? Don't assume there will be no exceptions...
         with self.state.lock:
-            sync: SyncEntry = self.state.change(self.aging)
+            try:
+                sync: SyncEntry = self.state.change(self.aging)
+            except (ex.CloudTemporaryError, ex.CloudDisconnectedError, ex.CloudOutOfSpaceError, ex.CloudTokenError,
+                    ex.CloudNamespaceError) as e:
+                # change() asks the providers for missing paths: a failing provider is reported to the application
+                # exactly as it is when it fails while an entry is being synced (_sync_one_entry)
+                log.warning("error %s[%s] while looking for the next change", type(e), e)
+                self._nmgr.notify_from_exception(SourceEnum.SYNC, e)
+                self.backoff()  # raises a backoff error to the caller
             if sync:
                 log.log(TRACE, "do sync=%s", sync)
                 need_to_sleep = False
